@@ -12,7 +12,11 @@
 #   c15.rt <n> <size> <wto> <pace>  (implementation only, thorough tier: measured runtime part)
 # ops: p<buf>|<buf>  r<i>.<n>  f<i>.<n>  d<i>  s      (group: p<type>:<ts>:<payload>)
 # output per consumer: codes;pre;q;h;state;wire;extra   (extra = connection write calls; rtsp kinds:
-#   calls/session byte counter/datagrams on the video socket/datagrams on the audio socket)
+#   calls/session write counter/datagrams on the video socket/datagrams on the audio socket/connection read counter/
+#   session read counter; other kinds: calls/connection read counter)
+# inbound ops (what the PLAYER sends; harness c15in.go):  i<consumer>.<what>[.<arg>]
+#   c<ch>.<n> interleaved packet  u<v|a><p|c>.<n> datagram to lal's rtp / rtcp socket  o<cseq>.<resp> OPTIONS  g<cseq> GET_PARAMETER
+#   a rtmp ack  k<ts> rtmp ping request  b<n> bytes on an http subscription
 import os
 from lib import vf
 from lib.vf import Case
@@ -558,10 +562,13 @@ def parse_out(out):
         x = dict(codes=g[0], pre=num(g[1]), q=num(g[2]), h=int(g[3]), state=g[4], wire=tok_bytes(g[5]))
         e = g[6].split("/")
         x["att"] = num(e[0])
-        if len(e) == 4:
+        if len(e) == 6:
             x["acc"] = num(e[1])
             x["udp"] = [[] if d == "-" else [tok_bytes(t) for t in d.split(",")] for d in e[2:4]]
-        elif len(e) != 1:
+            x["crd"], x["rd"] = num(e[4]), num(e[5])
+        elif len(e) == 2:
+            x["crd"] = num(e[1])
+        else:
             return None
         res.append(x)
     return res
